@@ -74,6 +74,13 @@ pub struct GenVal {
     pub g: u32,
 }
 impl sylvia::cw_std::CustomMsg for GenVal {}
+/// A second type generic programs are used with: only their response tables are asked for it (C16).
+#[cosmwasm_schema::cw_serde]
+pub struct GenVal2 {
+    pub g: u32,
+    pub h: String,
+}
+impl sylvia::cw_std::CustomMsg for GenVal2 {}
 
 /// The message type of user-supplied (overriding) entry points: any JSON object.
 #[cosmwasm_schema::cw_serde]
@@ -244,6 +251,16 @@ pub mod rec {
             sylvia::cw_std::Binary::from(b"bin".to_vec())
         }
     }
+    impl QShape for crate::GenVal {
+        fn make(_name: &str, code: u32) -> Self {
+            crate::GenVal { g: code }
+        }
+    }
+    impl QShape for crate::GenVal2 {
+        fn make(name: &str, code: u32) -> Self {
+            crate::GenVal2 { g: code, h: name.to_string() }
+        }
+    }
     impl QShape for String {
         fn make(name: &str, _code: u32) -> Self {
             name.to_string()
@@ -265,19 +282,24 @@ pub mod rec {
 
     /// C16 observation: the query response table of one message type (or of the contract-level one).
     pub fn schemas(prog: &str, part: &str, table: Result<std::collections::BTreeMap<String, schemars::schema::RootSchema>, String>, anyof: i64) {
+        schemas_at(prog, part, "GenVal", table, anyof)
+    }
+    /// The response table of `part` as a generic program used with the type `inst` publishes it.
+    pub fn schemas_at(prog: &str, part: &str, inst: &str, table: Result<std::collections::BTreeMap<String, schemars::schema::RootSchema>, String>, anyof: i64) {
         let known = [("QResp", cosmwasm_schema::schema_for!(QResp)), ("QRespB", cosmwasm_schema::schema_for!(QRespB)),
                      ("Tup1", cosmwasm_schema::schema_for!((QResp,))), ("Tup2", cosmwasm_schema::schema_for!((QResp, u64))),
                      ("VecTup1", cosmwasm_schema::schema_for!(Vec<(u64,)>)), ("ArrB", cosmwasm_schema::schema_for!([QRespB; 2])),
-                     ("Bin", cosmwasm_schema::schema_for!(sylvia::cw_std::Binary)), ("Str", cosmwasm_schema::schema_for!(String))];
+                     ("Bin", cosmwasm_schema::schema_for!(sylvia::cw_std::Binary)), ("Str", cosmwasm_schema::schema_for!(String)),
+                     ("GenVal", cosmwasm_schema::schema_for!(crate::GenVal)), ("GenVal2", cosmwasm_schema::schema_for!(crate::GenVal2))];
         match table {
             Ok(t) => {
                 let rows: Vec<Value> = t.iter().map(|(k, v)| {
                     let ty = known.iter().find(|(_, s)| s == v).map(|(n, _)| *n).unwrap_or("other");
                     json!({"name": k, "ty": ty, "title": v.schema.metadata.as_ref().and_then(|m| m.title.clone()).unwrap_or_default()})
                 }).collect();
-                rt::emit(json!({"ev":"Schemas","prog":prog,"part":part,"verdict":"ok","rows":rows,"anyof":anyof}));
+                rt::emit(json!({"ev":"Schemas","prog":prog,"part":part,"inst":inst,"verdict":"ok","rows":rows,"anyof":anyof}));
             }
-            Err(e) => rt::emit(json!({"ev":"Schemas","prog":prog,"part":part,"verdict":"err","rows":[],"anyof":anyof,"err":e})),
+            Err(e) => rt::emit(json!({"ev":"Schemas","prog":prog,"part":part,"inst":inst,"verdict":"err","rows":[],"anyof":anyof,"err":e})),
         }
     }
 
